@@ -3,6 +3,7 @@ package main
 import (
 	"bytes"
 	"fmt"
+	"reflect"
 
 	"github.com/lyraproj/pcore/px"
 	"github.com/lyraproj/pcore/types"
@@ -92,7 +93,10 @@ func deepEq(a, b px.Value, path string) string {
 			if !ao.PType().Equals(bo.PType(), nil) {
 				return fmt.Sprintf("%s: object types differ: %s vs %s", path, ao.PType(), bo.PType())
 			}
-			return deepEq(ao.InitHash(), bo.InitHash(), path+"/init")
+			if d := deepEq(ao.InitHash(), bo.InitHash(), path+"/init"); d != "" {
+				return d
+			}
+			return instanceEq(ao, bo, path)
 		}
 	}
 	if !a.Equals(b, nil) {
@@ -100,6 +104,114 @@ func deepEq(a, b px.Value, path string) string {
 	}
 	if !b.Equals(a, nil) {
 		return fmt.Sprintf("%s: Equals is not symmetric on %s (%T) vs %s (%T)", path, short(a), a, short(b), b)
+	}
+	return ""
+}
+
+// instanceEq: two instances of the same Object type hold equal values in EVERY attribute (read through
+// attribute.Get - what a user of the instance sees, also for the attributes the init hash leaves out because they
+// hold their default), and, when the type is backed by a Go struct, the Go values they stand for are equal field
+// by field.
+func instanceEq(a, b px.PuppetObject, path string) (diff string) {
+	ot, ok := a.PType().(px.ObjectType)
+	if !ok {
+		return ""
+	}
+	defer func() {
+		if e := recover(); e != nil {
+			diff = fmt.Sprintf("%s: the attributes of the instance cannot be read: %v", path, e)
+		}
+	}()
+	if ot.GoType() == nil {
+		for _, at := range ot.AttributesInfo().Attributes() {
+			if d := deepEq(at.Get(a), at.Get(b), path+"/"+at.Name()); d != "" {
+				return d
+			}
+		}
+		return ""
+	}
+	// backed by a Go struct: the fields are the attributes (reading them through attribute.Get costs a
+	// runtime.Stack call per attribute: wrap looks for the context of the goroutine)
+	ar, aok := a.(px.Reflected)
+	br, bok := b.(px.Reflected)
+	if !aok || !bok {
+		return fmt.Sprintf("%s: instance of a type backed by a Go struct: %T vs %T", path, a, b)
+	}
+	ga, gb := derefStruct(ar.Reflect(judgeCtx)), derefStruct(br.Reflect(judgeCtx))
+	if ga.Type() != gb.Type() {
+		return fmt.Sprintf("%s: Go value of type %s vs %s", path, ga.Type(), gb.Type())
+	}
+	return goEq(ga, gb, path+"/go")
+}
+
+// the context of the run that is being judged (px.Reflected.Reflect wants one)
+var judgeCtx px.Context
+
+func derefStruct(v reflect.Value) reflect.Value {
+	for v.Kind() == reflect.Ptr && !v.IsNil() {
+		v = v.Elem()
+	}
+	return v
+}
+
+var pxValueType = reflect.TypeOf((*px.Value)(nil)).Elem()
+
+// goEq: field by field equality of two Go values of the same type; px.Value fields by deepEq; a nil slice and an
+// empty one are different values (the one reads as undef, the other as [])
+func goEq(a, b reflect.Value, path string) string {
+	switch a.Kind() {
+	case reflect.Ptr:
+		if a.IsNil() || b.IsNil() {
+			if a.IsNil() != b.IsNil() {
+				return fmt.Sprintf("%s: nil vs non-nil pointer", path)
+			}
+			return ""
+		}
+		return goEq(a.Elem(), b.Elem(), path)
+	case reflect.Interface:
+		if a.IsNil() || b.IsNil() {
+			// a nil px.Value reads as undef
+			av, bv := px.Value(px.Undef), px.Value(px.Undef)
+			if !a.IsNil() {
+				av, _ = a.Interface().(px.Value)
+			}
+			if !b.IsNil() {
+				bv, _ = b.Interface().(px.Value)
+			}
+			return deepEq(av, bv, path)
+		}
+		av, aok := a.Interface().(px.Value)
+		bv, bok := b.Interface().(px.Value)
+		if aok && bok {
+			return deepEq(av, bv, path)
+		}
+		if !reflect.DeepEqual(a.Interface(), b.Interface()) {
+			return fmt.Sprintf("%s: %v vs %v", path, a.Interface(), b.Interface())
+		}
+		return ""
+	case reflect.Struct:
+		for i := 0; i < a.NumField(); i++ {
+			if d := goEq(a.Field(i), b.Field(i), path+"."+a.Type().Field(i).Name); d != "" {
+				return d
+			}
+		}
+		return ""
+	case reflect.Slice:
+		if a.IsNil() != b.IsNil() {
+			return fmt.Sprintf("%s: nil vs non-nil slice", path)
+		}
+		if a.Len() != b.Len() {
+			return fmt.Sprintf("%s: slice length %d vs %d", path, a.Len(), b.Len())
+		}
+		for i := 0; i < a.Len(); i++ {
+			if d := goEq(a.Index(i), b.Index(i), fmt.Sprintf("%s[%d]", path, i)); d != "" {
+				return d
+			}
+		}
+		return ""
+	}
+	if !reflect.DeepEqual(a.Interface(), b.Interface()) {
+		return fmt.Sprintf("%s: %v vs %v", path, a.Interface(), b.Interface())
 	}
 	return ""
 }
